@@ -274,6 +274,18 @@ func (d *protoDom) call(st *sState, call *ssa.Call, name string, args []sVal) (b
 		return true, nil
 	}
 	switch name {
+	case "sm2/internal.getCurve":
+		// the curve value: its parameter block holds the literal's P, N, B, Gx, Gy (field order of elliptic.CurveParams)
+		id := e.newID()
+		obj := &hArray{elems: make([]sVal, 7)}
+		for i, sym := range []string{"P", "N", "B", "Gx", "Gy"} {
+			obj.elems[i] = d.newObj(st, "big", pSym(sym))
+		}
+		obj.elems[5] = sInt{big.NewInt(256)}
+		obj.elems[6] = sOpaque{"curve name"}
+		st.heap[id] = obj
+		set(sStruct{[]sVal{sPtr{id, -1}}})
+		return true, nil
 	// ----- math/big
 	case "math/big.NewInt":
 		t, ok := d.intArg(args[0])
@@ -461,6 +473,14 @@ func (d *protoDom) call(st *sState, call *ssa.Call, name string, args []sVal) (b
 			return fail("hash Sum with an unknown receiver or prefix")
 		}
 		dg := pOp("sm3", flatCat(h.parts))
+		if sl, isSl := args[1].(sSlice); isSl && sl.hi == sl.lo {
+			// Sum(buf[:0]) with room for the digest appends in place: the digest lands in the array behind buf
+			if arr, ok := st.heap[sl.id].(*hArray); ok && len(arr.elems)-sl.lo >= 32 {
+				d.writeBytes(st, arr, sl.lo, dg, 32)
+				set(sSlice{sl.id, sl.lo, sl.lo + 32})
+				return true, nil
+			}
+		}
 		if pre.op == "lit" && pre.k == 0 {
 			set(pBytes{dg})
 		} else {
